@@ -29,6 +29,8 @@ def sample_models(ck):
         widths = [rng.randrange(1, 10) for _ in range(depth)]
         ks = [None] + [d for d in range(1, widths[-1] + 1) if widths[-1] % d == 0]
         ms.append(("dense", nets.make_dense(rng, rng.randrange(1, 9), widths, flatten=rng.random() < 0.4, k=rng.choice(ks))))
+    for name, shp, layers in nets.SYSTEMATIC_STACKS:
+        ms.append((f"stack{len(shp) - 1}d", nets.make_custom(rng, shp, layers)))
     for i in range(n_stack):
         dims = 3 if i % 4 == 3 else 2
         param = "walsh" if (dims == 2 and i % 5 == 0) else "raw"
